@@ -108,7 +108,7 @@ class VersionConverter(object):
         for elem in parsed_doc:
             if elem == 'sections':
                 cls._parse_dict_sections(root, parsed_doc['sections'])
-            elif elem:
+            elif elem and parsed_doc[elem] is not None:
                 curr_element = ET.Element(elem)
                 curr_element.text = cls._entry_text(parsed_doc[elem])
                 root.append(curr_element)
@@ -133,7 +133,7 @@ class VersionConverter(object):
                     cls._parse_dict_properties(sec, section['properties'])
                 elif element == 'sections':
                     cls._parse_dict_sections(sec, section['sections'])
-                elif element:
+                elif element and section[element] is not None:
                     elem = ET.Element(element)
                     elem.text = cls._entry_text(section[element])
                     sec.append(elem)
@@ -156,7 +156,7 @@ class VersionConverter(object):
             for element in curr_prop:
                 if element == 'values':
                     cls._parse_dict_values(prop, curr_prop['values'])
-                elif element:
+                elif element and curr_prop[element] is not None:
                     elem = ET.Element(element)
                     elem.text = cls._entry_text(curr_prop[element])
                     prop.append(elem)
@@ -176,7 +176,8 @@ class VersionConverter(object):
         for value in value_list:
             val = ET.Element("value")
             for element in value:
-                if element:
+                # A null entry is an unset entry, not the text 'None'.
+                if element and value[element] is not None:
                     if element == 'value':
                         val.text = str(value[element])
                     else:
